@@ -585,6 +585,11 @@ func (w *World) strEq(x, y Value) Value {
 		}
 		return r
 	}
+	if tx, ok := x.(*Term); ok {
+		if ty, ok := y.(*Term); ok && tx.S == ty.S {
+			return true
+		}
+	}
 	// texts produced by FormatInt/FormatUint/Itoa are compared through the numbers behind them
 	if r, ok := w.strEqByOrigin(x, y); ok {
 		return r
